@@ -101,6 +101,7 @@ not read yet).  Observed: see model/CachesHandTie.v.
 
 Modes (stdin JSON):  list of cases -> list of results;  a case is either a history
 ({"env", "t0", "ops"} [+ "real"]), a thread race ({"threads": n, "fn": ...}), a probe history, a
+`terminal_size_cached` history with several argument tuples ({"tsargs": ...}, see run_tsargs), a
 swap schedule, an invalidation schedule, a hand-over schedule, or a request for a fresh computation in this
 (new) interpreter ({"fresh": ...}).
 """
@@ -682,6 +683,101 @@ def run_probe(case):
             code = next((i for i, o in enumerate(PROBE_OBJS) if o is v), 99)
         rows.append({"runs": len(runs) - n0, "val": code, "ran": runs[n0:]})
     return {"rows": rows}
+
+
+# ---------------------------------- terminal_size_cached with several argument tuples
+
+
+class _Pane:
+    """instances handed to the decorated probe the way a decorated METHOD is handed `self`"""
+
+
+_PANE_A, _PANE_B = _Pane(), _Pane()
+TS_ARGS = [((), {}), ((_PANE_A,), {}), ((_PANE_B,), {}), ((2,), {}), ((), {"n": 2}), ((1, 2), {"n": None}),
+           (([1, 2],), {})]   # (the last one is not hashable: the decorator takes ANY arguments)
+
+
+def run_tsargs(case):
+    """{"tsargs": {"t0": [c, r], "offs": [...], "real": 0|1, "cmds": [["C", k] | ["CR", k, c, r] | ["R", c, r] | ["I"]]}}:
+    a probe decorated with the REAL `utils.terminal_size_cached`, called with the argument tuples TS_ARGS[k].
+    Its body asks `utils.get_terminal_size()` and returns columns * 1000 + lines + 1000000 * offs[k] (all offs 0:
+    a function of the terminal size alone); with "CR" the terminal is resized while the body runs (if it runs).
+    real=1: the active terminal is a pty resized with TIOCSWINSZ and `utils.get_terminal_size` is the library's
+    own; otherwise it is a scripted size.  Per command: the value the caller got (None: the call raised), the
+    argument tuples the body ran with, and `probe.__wrapped__` called with the call's own arguments just before."""
+    ta = case["tsargs"]
+    cur = [int(x) for x in ta["t0"]]
+    offs = ta["offs"]
+    real = bool(ta.get("real"))
+    saved_penv = {k: os.environ.pop(k, None) for k in ("COLUMNS", "LINES")}
+    saved = (U._tty_fd, U.get_terminal_size)
+    master = slave = None
+    st = {"log": True, "land": None}
+    runs = []
+
+    def set_window():
+        if real:
+            real_fcntl.ioctl(slave, real_termios.TIOCSWINSZ, struct.pack("HHHH", cur[1], cur[0], 0, 0))
+
+    def body(*a, **kw):
+        k = next(i for i, (a2, kw2) in enumerate(TS_ARGS) if len(a) == len(a2) and kw == kw2
+                 and all(x is y or (type(x) is type(y) and not isinstance(x, _Pane) and x == y) for x, y in zip(a, a2)))
+        c, r = U.get_terminal_size()
+        value = c * 1000 + r + 1000000 * offs[k]
+        if st["log"]:
+            runs.append(k)
+            if st["land"] is not None:   # the window is resized while the body is still running
+                cur[:] = st["land"]
+                st["land"] = None
+                set_window()
+        return value
+
+    try:
+        if real:
+            master, slave = pty.openpty()
+            U._tty_fd = slave
+            U.get_terminal_size = REAL_GET_TERMINAL_SIZE
+        else:
+            U.get_terminal_size = lambda: os.terminal_size((cur[0], cur[1]))
+        set_window()
+        probe = U.terminal_size_cached(body)
+        assert probe.__wrapped__ is body
+        rows = []
+        for cmd in ta["cmds"]:
+            n0 = len(runs)
+            if cmd[0] == "R":
+                cur[:] = [int(cmd[1]), int(cmd[2])]
+                set_window()
+                rows.append({"val": "-", "ran": [], "fresh": "-"})
+            elif cmd[0] == "I":
+                probe._invalidate_terminal_size_cache()
+                rows.append({"val": "-", "ran": runs[n0:], "fresh": "-"})
+            else:
+                a, kw = TS_ARGS[cmd[1]]
+                st["log"] = False
+                fr = probe.__wrapped__(*a, **kw)   # a fresh computation with the call's own arguments, current size
+                st["log"] = True
+                st["land"] = [int(cmd[2]), int(cmd[3])] if cmd[0] == "CR" else None
+                try:
+                    v = probe(*a, **kw)
+                    v = int(v) if type(v) is int else 10 ** 12
+                except Exception as exc:  # noqa: BLE001
+                    v = None
+                    err = "%s: %s" % (type(exc).__name__, exc)
+                finally:
+                    st["land"] = None
+                rows.append({"val": v, "ran": runs[n0:], "fresh": int(fr)})
+                if v is None:
+                    rows[-1]["exc"] = err
+        return {"rows": rows}
+    finally:
+        U._tty_fd, U.get_terminal_size = saved
+        for k, v in saved_penv.items():
+            if v is not None:
+                os.environ[k] = v
+        for fd in (master, slave):
+            if fd is not None:
+                os.close(fd)
 
 
 # --------------------------------------------------------------------- swap schedules
@@ -1460,6 +1556,8 @@ def run_case(case):
         return run_fresh(case)
     if "probe" in case:
         return run_probe(case)
+    if "tsargs" in case:
+        return run_tsargs(case)
     if "swap" in case:
         return run_swap(case)
     if "inval" in case:
